@@ -33,8 +33,14 @@ fn replay(path: &str) {
                 losses.push(loss::mk(idx(d["loss"].as_str().unwrap()), d["s"].as_f64().unwrap()));
             }
             let w: Vec<f64> = ws.iter().map(|x| x.as_f64().unwrap()).collect();
-            let cost = Estimator::new(data, w.clone(), losses).cost(&eos).map(|a| a.to_vec()).unwrap_or_default();
-            out.push(json!({"kind": "estimator", "weights": w, "datasets": ds, "cost": cost}));
+            // same operation sequence as in the failing run: new(first n_new sets) then add_data for the rest
+            let n_new = c["n_new"].as_u64().map_or(w.len(), |n| n as usize).min(w.len());
+            let mut est = Estimator::new(data[..n_new].to_vec(), w[..n_new].to_vec(), losses[..n_new].to_vec());
+            for i in n_new..w.len() {
+                est.add_data(&data[i], w[i], losses[i]);
+            }
+            let cost = est.cost(&eos).map(|a| a.to_vec()).unwrap_or_default();
+            out.push(json!({"kind": "estimator", "weights": w, "n_new": n_new, "datasets": ds, "cost": cost}));
         }
     }
     println!("{}", serde_json::to_string(&out).unwrap());
